@@ -473,22 +473,43 @@ theorem lookup_pad (m : GoMap) (n : Int) (size : Nat) (b : Bytes)
 
 
 theorem lt_pow_of_natBytes_length_le (x size : Nat) (h : (natBytes x).length ≤ size) :
-    x < 256 ^ size := by
-  have h1 := os2ip_lt (natBytes x)
-  rw [os2ip_natBytes] at h1
-  exact Nat.lt_of_lt_of_le h1 (Nat.pow_le_pow_right (by decide) h)
+    x < 256 ^ size := (natBytes_length_le_iff x size).mp h
 
-/-- the parameter list `NewKeyEC2` builds -/
-def ecParams (crv : Int) (x y : Nat) (d : Option Nat) : GoMap :=
-  let params : GoMap := [(lbl (-1), .crv crv), (lbl (-2), .bytes (natBytes x)), (lbl (-3), .bytes (natBytes y))]
+theorem crv_of_lookup (k : Key) (c : Int) (h : k.params.lookup (lbl (-1)) = some (.crv c)) :
+    k.crv = c := by
+  simp [Key.crv, paramInt, h, Lk.getD]
+
+theorem pbytes_of_lookup (k : Key) (n : Int) (b : Bytes)
+    (h : k.params.lookup (lbl n) = some (.bytes b)) : k.pbytes n = b := by
+  simp [Key.pbytes, paramBytes, h, Lk.getD]
+
+/-- the parameter list `NewKeyFromPublic` / `NewKeyFromPrivate` hand to `NewKeyEC2`, before
+    validation: x, y as `ec2Coordinate` leaves them (minimal form when oversize) -/
+def ecParamsRaw (crv : Int) (x y : Nat) (d : Option Nat) : GoMap :=
+  let params : GoMap := [(lbl (-1), .crv crv), (lbl (-2), .bytes (ec2Coordinate x (curveSize crv))),
+    (lbl (-3), .bytes (ec2Coordinate y (curveSize crv)))]
   match d with | some dv => params ++ [(lbl (-4), .bytes (natBytes dv))] | none => params
 
-theorem keyFromEC_inv (bits x y : Nat) (d : Option Nat) (k : Key)
+/-- the parameter list of every key the constructor RETURNS: x and y at the full width of the
+    curve's field (`FillBytes`), 0 included; d in minimal form -/
+def ecParams (crv : Int) (x y : Nat) (d : Option Nat) : GoMap :=
+  let params : GoMap := [(lbl (-1), .crv crv), (lbl (-2), .bytes (fillBytes (curveSize crv) x)),
+    (lbl (-3), .bytes (fillBytes (curveSize crv) y))]
+  match d with | some dv => params ++ [(lbl (-4), .bytes (natBytes dv))] | none => params
+
+theorem ecParamsRaw_eq (c : Int) (x y : Nat) (d : Option Nat)
+    (hx : ec2Coordinate x (curveSize c) = fillBytes (curveSize c) x)
+    (hy : ec2Coordinate y (curveSize c) = fillBytes (curveSize c) y) :
+    ecParamsRaw c x y d = ecParams c x y d := by
+  unfold ecParamsRaw ecParams
+  rw [hx, hy]
+
+theorem keyFromEC_raw (bits x y : Nat) (d : Option Nat) (k : Key)
     (hk : keyFromEC bits x y d = .ok k) :
     (curveOfBits bits = 1 ∨ curveOfBits bits = 2 ∨ curveOfBits bits = 3) ∧
     k = { kty := 2,
           alg := (if curveOfBits bits = 1 then -7 else if curveOfBits bits = 2 then -35 else -36),
-          params := ecParams (curveOfBits bits) x y d } ∧
+          params := ecParamsRaw (curveOfBits bits) x y d } ∧
     k.validate .none = none := by
   unfold keyFromEC at hk
   simp only [] at hk
@@ -509,62 +530,120 @@ theorem keyFromEC_inv (bits x y : Nat) (d : Option Nat) (k : Key)
           · simp [h3]
           · simp [h1, h2, h3] at hc
 
-theorem ecParams_lookups (c : Int) (x y : Nat) (d : Option Nat) :
-    (ecParams c x y d).lookup (lbl (-1)) = some (.crv c) ∧
-    (ecParams c x y d).lookup (lbl (-2)) = some (.bytes (natBytes x)) ∧
-    (ecParams c x y d).lookup (lbl (-3)) = some (.bytes (natBytes y)) ∧
-    (∀ dv, d = some dv → (ecParams c x y d).lookup (lbl (-4)) = some (.bytes (natBytes dv))) := by
-  cases d <;> simp [ecParams, lookup_cons, keyEq_lbl_lbl, lookup_nil]
+theorem ecParamsRaw_lookups (c : Int) (x y : Nat) (d : Option Nat) :
+    (ecParamsRaw c x y d).lookup (lbl (-1)) = some (.crv c) ∧
+    (ecParamsRaw c x y d).lookup (lbl (-2)) = some (.bytes (ec2Coordinate x (curveSize c))) ∧
+    (ecParamsRaw c x y d).lookup (lbl (-3)) = some (.bytes (ec2Coordinate y (curveSize c))) := by
+  cases d <;> simp [ecParamsRaw, lookup_cons, keyEq_lbl_lbl]
 
-theorem ecParams_mem (c : Int) (x y : Nat) (d : Option Nat) :
-    (lbl (-2), GoVal.bytes (natBytes x)) ∈ ecParams c x y d ∧
-    (lbl (-3), GoVal.bytes (natBytes y)) ∈ ecParams c x y d ∧
-    (∀ dv, d = some dv → (lbl (-4), GoVal.bytes (natBytes dv)) ∈ ecParams c x y d) := by
-  cases d <;> simp [ecParams]
-
-theorem crv_of_lookup (k : Key) (c : Int) (h : k.params.lookup (lbl (-1)) = some (.crv c)) :
-    k.crv = c := by
-  simp [Key.crv, paramInt, h, Lk.getD]
-
-theorem pbytes_of_lookup (k : Key) (n : Int) (b : Bytes)
-    (h : k.params.lookup (lbl n) = some (.bytes b)) : k.pbytes n = b := by
-  simp [Key.pbytes, paramBytes, h, Lk.getD]
-
-/-- everything the serialised map of `NewKeyEC2(x, y, d)` holds for the coordinates -/
-theorem ec2_marshal_lookups (bits x y : Nat) (d : Option Nat) (k : Key) (m : GoMap)
-    (hk : keyFromEC bits x y d = .ok k) (hm : k.marshalMap = some m) (hx : 0 < x) (hy : 0 < y) :
-    ∃ size, size = curveSize (curveOfBits bits) ∧ size ≠ 0 ∧ x < 256 ^ size ∧ y < 256 ^ size ∧
-      m.lookup (lbl (-2)) = some (.bytes (fillBytes size x)) ∧
-      m.lookup (lbl (-3)) = some (.bytes (fillBytes size y)) ∧
-      (∀ dv, d = some dv → m.lookup (lbl (-4)) = some (.bytes (natBytes dv))) := by
-  obtain ⟨hc, hkeq, hv⟩ := keyFromEC_inv bits x y d k hk
-  have hl := ecParams_lookups (curveOfBits bits) x y d
-  have hpar : k.params = ecParams (curveOfBits bits) x y d := by rw [hkeq]
+/-- what `NewKeyFromPublic` / `NewKeyFromPrivate` return for an EC key: the curve is one of the
+    three, both coordinates fit the field and are stored at its full width -/
+theorem keyFromEC_inv (bits x y : Nat) (d : Option Nat) (k : Key)
+    (hk : keyFromEC bits x y d = .ok k) :
+    (curveOfBits bits = 1 ∨ curveOfBits bits = 2 ∨ curveOfBits bits = 3) ∧
+    k = { kty := 2,
+          alg := (if curveOfBits bits = 1 then -7 else if curveOfBits bits = 2 then -35 else -36),
+          params := ecParams (curveOfBits bits) x y d } ∧
+    k.validate .none = none ∧
+    x < 256 ^ curveSize (curveOfBits bits) ∧ y < 256 ^ curveSize (curveOfBits bits) := by
+  obtain ⟨hc, hkeq, hv⟩ := keyFromEC_raw bits x y d k hk
+  have hl := ecParamsRaw_lookups (curveOfBits bits) x y d
+  have hpar : k.params = ecParamsRaw (curveOfBits bits) x y d := by rw [hkeq]
   have h2 : k.kty = 2 := by rw [hkeq]
   rw [← hpar] at hl
   have hcrv := crv_of_lookup k _ hl.1
   have hpx := pbytes_of_lookup k _ _ hl.2.1
-  have hpy := pbytes_of_lookup k _ _ hl.2.2.1
+  have hpy := pbytes_of_lookup k _ _ hl.2.2
   have hsz : curveSize k.crv > 0 := by
     rw [hcrv]
     rcases hc with h | h | h <;> rw [h] <;> decide
   obtain ⟨_, _, _, _, _, hlen⟩ := C15.validate_ec2 k .none hv h2
   obtain ⟨hlx, hly, _⟩ := hlen hsz
-  rw [hpx] at hlx
-  rw [hpy] at hly
+  rw [hpx, hcrv] at hlx
+  rw [hpy, hcrv] at hly
+  obtain ⟨hxlt, hxe⟩ := ec2Coordinate_length_le _ _ hlx
+  obtain ⟨hylt, hye⟩ := ec2Coordinate_length_le _ _ hly
+  rw [ecParamsRaw_eq _ _ _ _ hxe hye] at hkeq
+  exact ⟨hc, hkeq, hv, hxlt, hylt⟩
+
+theorem ecParams_lookups (c : Int) (x y : Nat) (d : Option Nat) :
+    (ecParams c x y d).lookup (lbl (-1)) = some (.crv c) ∧
+    (ecParams c x y d).lookup (lbl (-2)) = some (.bytes (fillBytes (curveSize c) x)) ∧
+    (ecParams c x y d).lookup (lbl (-3)) = some (.bytes (fillBytes (curveSize c) y)) ∧
+    (∀ dv, d = some dv → (ecParams c x y d).lookup (lbl (-4)) = some (.bytes (natBytes dv))) := by
+  cases d <;> simp [ecParams, lookup_cons, keyEq_lbl_lbl, lookup_nil]
+
+theorem ecParams_mem (c : Int) (x y : Nat) (d : Option Nat) :
+    (lbl (-2), GoVal.bytes (fillBytes (curveSize c) x)) ∈ ecParams c x y d ∧
+    (lbl (-3), GoVal.bytes (fillBytes (curveSize c) y)) ∈ ecParams c x y d ∧
+    (∀ dv, d = some dv → (lbl (-4), GoVal.bytes (natBytes dv)) ∈ ecParams c x y d) := by
+  cases d <;> simp [ecParams]
+
+/-- the in-memory key of `NewKeyFromPublic` / `NewKeyFromPrivate`: x and y are `FillBytes` of
+    the coordinates at the curve's size, d is `D.Bytes()`; for every accepted x, y (0 included) -/
+theorem keyFromEC_pbytes (bits x y : Nat) (d : Option Nat) (k : Key)
+    (hk : keyFromEC bits x y d = .ok k) :
+    k.crv = curveOfBits bits ∧
+    k.pbytes (-2) = fillBytes (curveSize (curveOfBits bits)) x ∧
+    k.pbytes (-3) = fillBytes (curveSize (curveOfBits bits)) y ∧
+    (∀ dv, d = some dv → k.pbytes (-4) = natBytes dv) := by
+  obtain ⟨_, hkeq, _⟩ := keyFromEC_inv bits x y d k hk
+  have hl := ecParams_lookups (curveOfBits bits) x y d
+  have hpar : k.params = ecParams (curveOfBits bits) x y d := by rw [hkeq]
+  rw [← hpar] at hl
+  exact ⟨crv_of_lookup k _ hl.1, pbytes_of_lookup k _ _ hl.2.1, pbytes_of_lookup k _ _ hl.2.2.1,
+    fun dv hd => pbytes_of_lookup k _ _ (hl.2.2.2 dv hd)⟩
+
+/-- the key the constructor returns already holds x and y at exactly the curve's byte size — for
+    EVERY coordinate value it accepts, 0 included (`big.Int.Bytes()` gave the empty string) -/
+theorem keyFromEC_fullwidth (bits x y : Nat) (d : Option Nat) (k : Key)
+    (hk : keyFromEC bits x y d = .ok k) :
+    (k.pbytes (-2)).length = curveSize (curveOfBits bits) ∧
+    (k.pbytes (-3)).length = curveSize (curveOfBits bits) := by
+  obtain ⟨_, hx, hy, _⟩ := keyFromEC_pbytes bits x y d k hk
+  rw [hx, hy, fillBytes_length, fillBytes_length]
+  exact ⟨rfl, rfl⟩
+
+/-- the coordinates of the in-memory key convert back (`SetBytes`) to the numbers put in -/
+theorem keyFromEC_ecCoords (bits x y : Nat) (d : Option Nat) (k : Key)
+    (hk : keyFromEC bits x y d = .ok k) :
+    os2ip (k.pbytes (-2)) = x ∧ os2ip (k.pbytes (-3)) = y ∧
+    (∀ dv, d = some dv → k.ecCoords = (x, y, dv)) := by
+  obtain ⟨_, _, _, hxlt, hylt⟩ := keyFromEC_inv bits x y d k hk
+  obtain ⟨_, hx, hy, hd⟩ := keyFromEC_pbytes bits x y d k hk
+  have ex : os2ip (k.pbytes (-2)) = x := by rw [hx, os2ip_fillBytes _ _ hxlt]
+  have ey : os2ip (k.pbytes (-3)) = y := by rw [hy, os2ip_fillBytes _ _ hylt]
+  refine ⟨ex, ey, fun dv hdv => ?_⟩
+  unfold Key.ecCoords
+  rw [ex, ey, hd dv hdv, os2ip_natBytes]
+
+/-- everything the serialised map of `NewKeyEC2(x, y, d)` holds for the coordinates; no
+    hypothesis on x, y beyond the constructor having accepted them -/
+theorem ec2_marshal_lookups (bits x y : Nat) (d : Option Nat) (k : Key) (m : GoMap)
+    (hk : keyFromEC bits x y d = .ok k) (hm : k.marshalMap = some m) :
+    ∃ size, size = curveSize (curveOfBits bits) ∧ size ≠ 0 ∧ x < 256 ^ size ∧ y < 256 ^ size ∧
+      m.lookup (lbl (-2)) = some (.bytes (fillBytes size x)) ∧
+      m.lookup (lbl (-3)) = some (.bytes (fillBytes size y)) ∧
+      (∀ dv, d = some dv → m.lookup (lbl (-4)) = some (.bytes (natBytes dv))) := by
+  obtain ⟨hc, hkeq, hv, hxlt, hylt⟩ := keyFromEC_inv bits x y d k hk
+  obtain ⟨hcrv, hpx, hpy, _⟩ := keyFromEC_pbytes bits x y d k hk
+  have hpar : k.params = ecParams (curveOfBits bits) x y d := by rw [hkeq]
+  have h2 : k.kty = 2 := by rw [hkeq]
+  have hsz : curveSize k.crv > 0 := by
+    rw [hcrv]
+    rcases hc with h | h | h <;> rw [h] <;> decide
   obtain ⟨base, m0, hgo, hmeq⟩ := marshalMap_ec2_inv k m hm h2 hsz
   have hmem := ecParams_mem (curveOfBits bits) x y d
   rw [← hpar] at hmem
   have h0x := go_lookup _ _ _ _ _ _ _ hgo hmem.1 (normalizeLabel_lbl_small (-2) (by decide) (by decide))
   have h0y := go_lookup _ _ _ _ _ _ _ hgo hmem.2.1 (normalizeLabel_lbl_small (-3) (by decide) (by decide))
-  have hxlt := lt_pow_of_natBytes_length_le _ _ hlx
-  have hylt := lt_pow_of_natBytes_length_le _ _ hly
+  rw [← hcrv] at hxlt hylt hpx hpy h0x h0y
   refine ⟨curveSize k.crv, by rw [hcrv], by omega, hxlt, hylt, ?_, ?_, ?_⟩
   · rw [hmeq, padXY]
     rw [lookup_ite_set_other _ _ (-3) (-2) _ (by decide), hpx, lookup_pad _ _ _ _ h0x,
-      leftPad_natBytes _ _ hx hxlt]
+      leftPad_fillBytes]
   · rw [hmeq, padXY]
-    rw [hpy, lookup_pad _ (-3) _ (natBytes y), leftPad_natBytes _ _ hy hylt]
+    rw [hpy, lookup_pad _ (-3) _ (fillBytes (curveSize k.crv) y), leftPad_fillBytes]
     rw [lookup_ite_set_other _ _ (-2) (-3) _ (by decide)]
     exact h0y
   · intro dv hd
@@ -574,15 +653,16 @@ theorem ec2_marshal_lookups (bits x y : Nat) (d : Option Nat) (k : Key) (m : GoM
       lookup_ite_set_other _ _ (-2) (-4) _ (by decide)]
     exact h0d
 
-/-- the serialised x and y always have exactly the curve's byte size: the value left-padded
-    with zeros -/
+/-- the serialised x and y always have exactly the curve's byte size — for every key the
+    constructor accepts, the zero coordinate included -/
 theorem ec2_marshal_fullwidth (bits x y : Nat) (d : Option Nat) (k : Key) (m : GoMap)
-    (hk : keyFromEC bits x y d = .ok k) (hm : k.marshalMap = some m) (hx : 0 < x) (hy : 0 < y) :
+    (hk : keyFromEC bits x y d = .ok k) (hm : k.marshalMap = some m) :
     ∃ size, size = curveSize (curveOfBits bits) ∧ size ≠ 0 ∧
       m.lookup (lbl (-2)) = some (.bytes (fillBytes size x)) ∧
-      m.lookup (lbl (-3)) = some (.bytes (fillBytes size y)) := by
-  obtain ⟨size, h1, h2, _, _, h3, h4, _⟩ := ec2_marshal_lookups bits x y d k m hk hm hx hy
-  exact ⟨size, h1, h2, h3, h4⟩
+      m.lookup (lbl (-3)) = some (.bytes (fillBytes size y)) ∧
+      (fillBytes size x).length = size ∧ (fillBytes size y).length = size := by
+  obtain ⟨size, h1, h2, _, _, h3, h4, _⟩ := ec2_marshal_lookups bits x y d k m hk hm
+  exact ⟨size, h1, h2, h3, h4, fillBytes_length _ _, fillBytes_length _ _⟩
 
 /-- converting the serialised parameters back (`SetBytes`) yields the same numbers -/
 theorem ecCoords_of_params (p : GoMap) (size x y dv : Nat)
@@ -608,9 +688,9 @@ theorem ec2_coords_roundtrip (k' : Key) (size x y dv : Nat)
     `x`, `y`, `d` -/
 theorem ec2_marshal_coords (bits x y dv : Nat) (k : Key) (m : GoMap)
     (hk : keyFromEC bits x y (some dv) = .ok k) (hm : k.marshalMap = some m)
-    (hx : 0 < x) (hy : 0 < y) (k' : Key) (hk' : k'.params = m) :
+    (k' : Key) (hk' : k'.params = m) :
     k'.ecCoords = (x, y, dv) := by
-  obtain ⟨size, _, _, hxlt, hylt, h3, h4, h5⟩ := ec2_marshal_lookups bits x y _ k m hk hm hx hy
+  obtain ⟨size, _, _, hxlt, hylt, h3, h4, h5⟩ := ec2_marshal_lookups bits x y _ k m hk hm
   rw [← hk'] at h3 h4 h5
   unfold Key.ecCoords
   rw [pbytes_of_lookup _ _ _ h3, pbytes_of_lookup _ _ _ h4, pbytes_of_lookup _ _ _ (h5 dv rfl),
@@ -633,7 +713,7 @@ theorem keyFromEC_signer_alg (bits x y dv : Nat) (k : Key)
     (hk : keyFromEC bits x y (some dv) = .ok k) (a : Int) (hs : k.signer = .ok a) :
     a = (if curveOfBits bits = 1 then -7 else if curveOfBits bits = 2 then -35 else -36) ∧
     (∀ oc b, k.verifier oc = .ok b → b = a) := by
-  obtain ⟨hc, hkeq, hv⟩ := keyFromEC_inv bits x y _ k hk
+  obtain ⟨hc, hkeq, hv, _, _⟩ := keyFromEC_inv bits x y _ k hk
   have hl := ecParams_lookups (curveOfBits bits) x y (some dv)
   have hpar : k.params = ecParams (curveOfBits bits) x y (some dv) := by rw [hkeq]
   have h2 : k.kty = 2 := by rw [hkeq]
@@ -683,22 +763,113 @@ theorem keyFromEC_marshal_some (bits x y : Nat) (d : Option Nat) (k : Key)
   rw [hpar]
   exact go_ecParams _ x y d base
 
-/-! ### non-vacuity -/
+/-! ### the constructor accepts every coordinate that fits — non-vacuity -/
 
 theorem natBytes_one : natBytes 1 = [1] := by simp [natBytes]
 
+/-- `validate` accepts, for every operation, an EC2 key on one of the three curves whose x and y
+    have the curve's size, whose d is no longer (and present when signing), and whose algorithm is
+    the curve's -/
+theorem validate_of_ec2 (k : Key) (c : Int) (op : KOp) (h2 : k.kty = 2) (hcrv : k.crv = c)
+    (hc : c = 1 ∨ c = 2 ∨ c = 3)
+    (hx : (k.pbytes (-2)).length = curveSize c) (hy : (k.pbytes (-3)).length = curveSize c)
+    (hd : (k.pbytes (-4)).length ≤ curveSize c)
+    (hop : op = .sign → 0 < (k.pbytes (-4)).length)
+    (halg : k.alg = (if c = 1 then -7 else if c = 2 then -35 else -36)) :
+    k.validate op = none := by
+  have hsign : ¬ (op = .sign ∧ (k.pbytes (-4)).length = 0) := fun h => by
+    have := hop h.1; omega
+  unfold Key.validate Key.deriveAlgorithm
+  simp only [h2, hcrv, hx, hy, halg, hsign]
+  rcases hc with h | h | h <;> subst h <;> simp [curveSize] at hd ⊢ <;> rw [if_neg (by omega)]
+
+/-- `PublicKey()` succeeds on an EC2 key of the three curves that `validate(verify)` accepts -/
+theorem publicKey_of_ec2 (k : Key) (h2 : k.kty = 2) (hc : k.crv = 1 ∨ k.crv = 2 ∨ k.crv = 3)
+    (hv : k.validate .verify = none) : k.publicKey = none := by
+  unfold Key.publicKey Key.deriveAlgorithm
+  rw [hv, if_pos h2]
+  rcases hc with h | h | h <;> rw [h] <;> rfl
+
+/-- `validate` accepts the full-width parameter list on the three curves, whatever x and y -/
+theorem validate_ecParams (c : Int) (x y : Nat) (d : Option Nat) (hc : c = 1 ∨ c = 2 ∨ c = 3)
+    (hd : ∀ dv, d = some dv → dv < 256 ^ curveSize c) :
+    ({ kty := 2, alg := (if c = 1 then -7 else if c = 2 then -35 else -36),
+       params := ecParams c x y d } : Key).validate .none = none := by
+  have hl := ecParams_lookups c x y d
+  refine validate_of_ec2 _ c .none rfl (crv_of_lookup _ _ hl.1) hc ?_ ?_ ?_ (fun h => by cases h) rfl
+  · rw [pbytes_of_lookup _ _ _ hl.2.1, fillBytes_length]
+  · rw [pbytes_of_lookup _ _ _ hl.2.2.1, fillBytes_length]
+  · cases d with
+    | none =>
+      simp [Key.pbytes, ecParams, paramBytes, lookup_cons, keyEq_lbl_lbl, lookup_nil, Lk.getD]
+    | some dv =>
+      rw [pbytes_of_lookup _ _ _ (hl.2.2.2 dv rfl)]
+      exact natBytes_length_le dv _ (hd dv rfl)
+
+/-- `NewKeyFromPublic` / `NewKeyFromPrivate` succeed for every pair of coordinates that fit the
+    field — x = 0 or y = 0 included — and return the full-width key -/
+theorem keyFromEC_ok (bits x y : Nat) (d : Option Nat)
+    (hc : curveOfBits bits = 1 ∨ curveOfBits bits = 2 ∨ curveOfBits bits = 3)
+    (hx : x < 256 ^ curveSize (curveOfBits bits)) (hy : y < 256 ^ curveSize (curveOfBits bits))
+    (hd : ∀ dv, d = some dv → dv < 256 ^ curveSize (curveOfBits bits)) :
+    keyFromEC bits x y d = .ok
+      { kty := 2,
+        alg := (if curveOfBits bits = 1 then -7 else if curveOfBits bits = 2 then -35 else -36),
+        params := ecParams (curveOfBits bits) x y d } := by
+  have hv := validate_ecParams (curveOfBits bits) x y d hc hd
+  have hne : ¬ curveOfBits bits = 0 := by omega
+  unfold keyFromEC
+  simp only []
+  rw [if_neg hne, (ec2Coordinate_of_fits _ _ hx).1, (ec2Coordinate_of_fits _ _ hy).1]
+  unfold ecParams at hv ⊢
+  cases d <;> (simp only [] at hv ⊢; rw [hv])
+
+/-- every EC2 key the constructor returns passes `validate` for verification, and `PublicKey()`
+    succeeds on it — whatever the coordinates, 0 included: `ErrEC2NoPub` ("x or y missing") can no
+    longer come out of a key made from a Go key -/
+theorem keyFromEC_publicKey (bits x y : Nat) (d : Option Nat) (k : Key)
+    (hk : keyFromEC bits x y d = .ok k) :
+    k.validate .verify = none ∧ k.publicKey = none := by
+  obtain ⟨hc, hkeq, hv, _, _⟩ := keyFromEC_inv bits x y d k hk
+  obtain ⟨hcrv, _, _, _⟩ := keyFromEC_pbytes bits x y d k hk
+  obtain ⟨hlx, hly⟩ := keyFromEC_fullwidth bits x y d k hk
+  have h2 : k.kty = 2 := by rw [hkeq]
+  have hsz : curveSize k.crv > 0 := by
+    rw [hcrv]
+    rcases hc with h | h | h <;> rw [h] <;> decide
+  obtain ⟨_, _, _, _, _, hlen⟩ := C15.validate_ec2 k .none hv h2
+  obtain ⟨_, _, hld⟩ := hlen hsz
+  rw [hcrv] at hld
+  have hver := validate_of_ec2 k (curveOfBits bits) .verify h2 hcrv hc hlx hly hld
+    (fun h => by cases h) (by rw [hkeq])
+  exact ⟨hver, publicKey_of_ec2 k h2 (by rw [hcrv]; exact hc) hver⟩
+
 /-- P-256 with x = y = d = 1 is accepted structurally and yields ES256 both ways -/
 example : ∃ k, keyFromEC 256 1 1 (some 1) = .ok k ∧ k.signer = .ok (-7) ∧ k.verifier true = .ok (-7) := by
-  refine ⟨{ kty := 2, alg := -7, params := ecParams 1 1 1 (some 1) }, ?_, ?_, ?_⟩
-  · unfold keyFromEC
-    simp [curveOfBits, Key.validate, Key.pbytes, paramBytes, Key.crv, paramInt, lookup_cons,
-      keyEq_lbl_lbl, Lk.getD, natBytes_one, curveSize, Key.deriveAlgorithm, ecParams]
+  refine ⟨_, keyFromEC_ok 256 1 1 (some 1) (by decide) (by decide) (by decide)
+    (by intro dv h; cases h; decide), ?_, ?_⟩
   · simp [Key.signer, Key.canOp, Key.privateKey, Key.algorithmOrDefault, Key.validate, Key.pbytes,
       paramBytes, Key.crv, paramInt, lookup_cons, keyEq_lbl_lbl, Lk.getD, natBytes_one,
-      curveSize, Key.deriveAlgorithm, ecParams]
+      curveSize, curveOfBits, fillBytes_length, Key.deriveAlgorithm, ecParams]
   · simp [Key.verifier, Key.canOp, Key.publicKey, Key.algorithmOrDefault, Key.validate, Key.pbytes,
       paramBytes, Key.crv, paramInt, lookup_cons, keyEq_lbl_lbl, Lk.getD, natBytes_one,
-      curveSize, Key.deriveAlgorithm, ecParams]
+      curveSize, curveOfBits, fillBytes_length, Key.deriveAlgorithm, ecParams]
+
+/-- the repaired defect, on the in-memory key: P-256 with x = 0 is accepted, x is held as 32 zero
+    octets (not the empty string), and `PublicKey()` / `Verifier()` no longer fail with
+    `ErrEC2NoPub` -/
+example : ∃ k, keyFromEC 256 0 1 none = .ok k ∧ k.pbytes (-2) = List.replicate 32 0 ∧
+    k.publicKey = none ∧ k.verifier true = .ok (-7) := by
+  refine ⟨_, keyFromEC_ok 256 0 1 none (by decide) (by decide) (by decide)
+    (by intro dv h; cases h), ?_, ?_, ?_⟩
+  · simp [Key.pbytes, paramBytes, lookup_cons, keyEq_lbl_lbl, Lk.getD, curveSize, curveOfBits,
+      ecParams, fillBytes_zero]
+  · simp [Key.publicKey, Key.validate, Key.pbytes,
+      paramBytes, Key.crv, paramInt, lookup_cons, keyEq_lbl_lbl, lookup_nil, Lk.getD,
+      curveSize, curveOfBits, fillBytes_length, Key.deriveAlgorithm, ecParams]
+  · simp [Key.verifier, Key.canOp, Key.publicKey, Key.algorithmOrDefault, Key.validate, Key.pbytes,
+      paramBytes, Key.crv, paramInt, lookup_cons, keyEq_lbl_lbl, lookup_nil, Lk.getD,
+      curveSize, curveOfBits, fillBytes_length, Key.deriveAlgorithm, ecParams]
 
 end C14
 
